@@ -309,3 +309,45 @@ def stub_canary():
     before = _state["calls"]
     _do(sb, 0, "x")
     return _state["calls"] == before + 1 and sb.raw_output == "x"
+
+
+# CrossHair replaces io.StringIO by its own model; the capture stream's REAL behaviour (newline translation, ...) is
+# only seen with the real class: these obligations give pedal the real StringIO (constructed untraced) and print
+# concrete texts from a menu.
+import io as _real_io
+import types as _types
+
+_REAL_STRINGIO = _real_io.StringIO
+_SB_IO = SB.io
+CR_TEXTS = ["step 0\rstep 1\rdone\n", "a\r\nb\r\n", "x\n", "", "no newline", "tab\t \n\n", "\r", "a\n\rb"]
+
+
+def _real_stringio(*a, **k):
+    from crosshair.tracers import NoTracing
+    with NoTracing():
+        return _REAL_STRINGIO(*a, **k)
+
+
+def real_stream(a0: bool, a1: bool, a2: bool, b0: bool, b1: bool, b2: bool, e0: bool, e1: bool) -> bool:
+    """
+    Two executions (run / call / evaluate) printing texts from an 8-entry menu with carriage returns, CRLF, tabs and
+    missing newlines through the REAL StringIO: raw output is exactly what was written, each context holds its share,
+    the line view is the concatenation of the per-execution views.
+
+    pre: True
+    post: _
+    """
+    if tick():
+        return True
+    t0, t1 = CR_TEXTS[bits(a0, a1, a2)], CR_TEXTS[bits(b0, b1, b2)]
+    op0, op1 = bits(e0, False) + 0, bits(e1, False) + 1
+    SB.io = _types.SimpleNamespace(StringIO=_real_stringio)
+    try:
+        sb = _fresh()
+        _do(sb, op0, t0)
+        first = sb._context[-1].output
+        _do(sb, op1 % 3, t1)
+        return (first == t0 and sb._context[-1].output == t1 and sb.raw_output == t0 + t1
+                and sb.output == ref_lines(t0) + ref_lines(t1))
+    finally:
+        SB.io = _SB_IO
